@@ -23,6 +23,9 @@ RULE += (
     ' next(reader) and one held iterator; user handlers of four kinds (function, bound method, partial,'
     ' falsy callable container); runs of more than a thousand damaged frames in a row.'
 )
+RULE += (
+    " Also: damage whose residue is 0xFFFFFF and neighbours."
+)
 ASSUMPTIONS = [
     "all frames of the stream are parseable when undamaged (payload >= natural length of their type)",
     "damage never touches the 3 header bytes (the property is stated for payload and checksum bytes)",
@@ -243,6 +246,17 @@ def run_case(ctx, frames, damage, mode, handler, backend="file"):
                 "handler": bool(handler), "events": [e[0] for e in events][:16], "log_records": nlog})
 
 
+_DEFINED = []
+
+
+def _defined():
+    if not _DEFINED:
+        from vf import refmodel
+
+        _DEFINED.append(set(refmodel.identities()))
+    return _DEFINED[0]
+
+
 def damage_for(rng, frame, cls=None):
     nb = len(frame) * 8
     _, pos = streams.damage_positions(rng, nb, 24, cls)
@@ -273,6 +287,22 @@ def run(ctx):
                 mode, handler = combos[(it + i) % 6]
                 run_case(ctx, frames, dmg_, mode, handler, ("file", "bytesio", "socket", "serial")[(it + i) % 4])
             ctx.hit("consecutive_twin_damage")
+        if it % 3 == 0:
+            # two DIFFERENT frames with the same length and the same checksum bytes next to each other, both damaged
+            # in the payload: two damaged frames, two reports
+            for i in range(n - 1):
+                # (only frames of numbers WITHOUT a definition: other payload bits of a defined type need not decode)
+                if 12 < len(frames[i]) < 400 and common.expected_identity(frames[i][3:-3]) not in _defined():
+                    c = streams.crc_collider(frames[i], rng)
+                    if c is not None and c != frames[i]:
+                        fr2 = list(frames)
+                        fr2[i + 1] = c
+                        pay_bits = (len(c) - 6) * 8
+                        dmg_ = {i: [24 + rng.randrange(pay_bits)], i + 1: [24 + rng.randrange(pay_bits)]}
+                        for mode, handler in ((1, 1), (2, 0), (0, 0)):
+                            run_case(ctx, fr2, dmg_, mode, handler, "bytesio")
+                        ctx.hit("adjacent_collider_pairs_damaged")
+                        break
         for k, sub in enumerate(subsets):
             mode, handler = combos[(it + k) % 6]
             damage = {i: damage_for(rng, frames[i]) for i in sub}
